@@ -201,9 +201,10 @@ def run(ctx):
         if ctx.thorough():
             cinf3 = consts(3, 1, [], cancel="TRUE", allorders="FALSE")
             cinf3["Totals"] = "<- TotalsInf"
-            model(ctx, cinf3, props=["CancelStops"], timeout=2400)
+            model(ctx, cinf3, props=["CancelStops"], timeout=5000)
         if ctx.thorough():
-            model(ctx, consts(3, 2, [0, 2], cancel="TRUE", fail="FailSmall", allorders="FALSE"), timeout=2400)
+            # (capacity 2 here took over 40 minutes on a loaded machine)
+            model(ctx, consts(3, 1, [0, 2], cancel="TRUE", fail="FailSmall", allorders="FALSE"), timeout=5000)
             files = cover_replay(ctx, 2, 2, [0, 1, 3], "TRUE", "FailSmall")
             cfgs = random_configs(ctx, [2, 3, 4], [1, 2, 4], 3, cancel=True, fails=True)
         else:
@@ -213,8 +214,8 @@ def run(ctx):
         model(ctx, consts(2, 2, [0, 1, 2, 3, 5]))
         model(ctx, consts(2, 1, [0, 1, 2, 3]))
         if ctx.thorough():
-            model(ctx, consts(3, 2, [0, 1, 3, 5], allorders="FALSE"), timeout=2400)
-            model(ctx, consts(3, 1, [0, 1, 2], allorders="TRUE"), timeout=2400)
+            model(ctx, consts(3, 2, [0, 1, 3], allorders="FALSE"), timeout=5000)
+            model(ctx, consts(3, 1, [0, 1, 2], allorders="TRUE"), timeout=5000)
             files = cover_replay(ctx, 2, 2, [0, 1, 3, 5], "FALSE", "NoFail")
             cfgs = random_configs(ctx, [2, 3, 4], [1, 2, 4], 6)
         else:
@@ -230,10 +231,10 @@ def run(ctx):
         # result-level conformance with the denotation of the graph (GraphSem.tla)
         from checks import gengraph
         th = ctx.thorough()
-        graphs = gengraph.make(ctx, ["mt", "mtc"], 60 if th else 16, 8 if th else 4)
+        graphs = gengraph.make(ctx, ["mt", "mtc"], 40 if th else 16, 6 if th else 4)
         gfiles = gengraph.run(ctx, graphs, "gen")
         # every one-timeout / one-preemption schedule of a few tiny graphs (sampled in the quick tier)
-        gengraph.systematic(ctx, None if th else 1000)
+        gengraph.systematic(ctx, 8000 if th else 1000)
     if not ctx.violations:
         self_test(ctx, rfiles)
         if gfiles:
